@@ -55,9 +55,35 @@ def run(ctx):
                         json.dump(pooltrace.fault_plan(s, k, pt, mode), open(pp, 'w'))
                         jobs.append({'job': {'scn': s, 'scheme': 'structural', 'plan': str(pp), 'mode': 'cli'}})
                         meta.append((s, {'k': k, 'pt': pt, 'mode': mode}))
+        # the same faults without a scratch directory: the buffer of finished chunks then lives in the output
+        # directory and must not survive a failed run
+        nplain = len(jobs)
+        s = None
+        while s is None:
+            s = base_scenario(rng, 3, 3)
+        for k, pt, mode in ((3, 'after', 'kill'), (2, 'mid', 'raise'), (1, 'after', 'exit3'), (3, 'before', 'raise')):
+            pp = ctx.scratch / f'fault_{len(jobs)}.json'
+            plan = pooltrace.fault_plan(s, k, pt, mode)
+            json.dump(plan, open(pp, 'w'))
+            jobs.append({'job': {'scn': s, 'scheme': 'structural', 'plan': str(pp), 'mode': 'cli', 'damage': 'no_tmp_dir'}})
+            meta.append((s, {'k': k, 'pt': pt, 'mode': mode, 'no_tmp_dir': True}))
         outs = sub.run_jobs(ctx, jobs)
         ptraces = []
         for (s, f), o in zip(meta, outs):
+            if f.get('no_tmp_dir'):
+                ctx.count({'stage': 'mapping', 'fault': f}, nontrivial=True)
+                extra = [x for x in o.get('out_listing', []) if x not in ('res.json', 'log.txt', 'res.h5')]
+                what = []
+                if o['ok']:
+                    what.append('the call returned normally')
+                if o.get('has_results'):
+                    what.append('the JSON output holds result records')
+                if extra:
+                    what.append(f'the output directory holds {extra} (result records of finished chunks)')
+                if what:
+                    ctx.report('mapping:fault:no-tmp-dir', f'mapping without a scratch directory, worker {f["k"]} fails '
+                               f'{f["pt"]} its work by {f["mode"]}: ' + '; '.join(what), {'scn': s, 'fault': f})
+                continue
             ctx.count({'stage': 'mapping', 'fault': f, 'P': s['cfg']['P']}, nontrivial=True)
             what = []
             if o['ok']:
@@ -79,7 +105,8 @@ def run(ctx):
                            + '; '.join(what), {'scn': s, 'fault': f})
             ptraces.append(pooltrace.pool_trace(s, o, fault=f))
         rej = 0
-        for (s, f), v in zip(meta, pooltrace.validate_pool(ctx, ptraces, 'WorkerPool_Trace_faults')):
+        for (s, f), v in zip([m for m in meta if not m[1].get('no_tmp_dir')],
+                             pooltrace.validate_pool(ctx, ptraces, 'WorkerPool_Trace_faults')):
             if not v['accepted']:
                 rej += 1
                 ctx.report(f'pooltrace:{v["inv"]}', f'run with fault {f}: hook trace / outputs are not a '
